@@ -24,7 +24,9 @@ type c20out struct {
 	Samples       []string                                `json:"samples"`
 }
 
-const c20Main = `package main
+const c20Main = `//go:build verif
+
+package main
 
 import (
 	"encoding/json"
@@ -58,7 +60,7 @@ func buildEmittedUtil(t *gen.Tools, root string) (string, error) {
 	os.WriteFile(filepath.Join(d, "drv", "core.go"), core, 0o666)
 	os.WriteFile(filepath.Join(d, "drv", "main.go"), []byte(c20Main), 0o666)
 	bin := filepath.Join(d, "c20drv")
-	cmd := exec.Command("go", "build", "-trimpath", "-o", bin, "./c20/drv")
+	cmd := exec.Command("go", "build", "-trimpath", "-tags", "verif", "-o", bin, "./c20/drv")
 	cmd.Dir = root
 	cmd.Env = gen.GoEnv()
 	if out, err := cmd.CombinedOutput(); err != nil {
